@@ -7,7 +7,7 @@ out=reports/seeded_runs.txt
 echo "# tools/seed_regression.sh: seeded change applied to /repo (git apply), quick check, undone (git checkout -- .)" > $out
 for id in $ids; do
   props=$(python3 -c "import json;print(' '.join(json.load(open('seeded/$id/meta.json'))['caught_by'].keys()))")
-  tools/run_seed.sh seeded/$id $props 2>&1 | cut -c1-420 | sed "s#^SEED $id#SEED $id#" >> $out
+  tools/run_seed.sh /verif/seeded/$id $props 2>&1 | cut -c1-420 | sed "s#^SEED $id#SEED $id#" >> $out
 done
 git -C /repo status --short >> $out
 echo "missed: $(grep -c '^SEED' $out) lines, $(grep '^SEED' $out | grep -vc VIOLATION) without a VIOLATION" >> $out
